@@ -7,7 +7,7 @@ use std::rc::Rc;
 
 use serde::{Deserialize, Serialize};
 
-use crate::cfg::AvailableValueMap;
+use crate::cfg::{AvailableValueMap, MathOp, RegisterSet};
 use crate::parser::{
     CsrImm, HasRegisterSets, InstructionProperties, LabelString, LabelStringToken,
     RegisterProperties,
@@ -78,6 +78,19 @@ pub enum AvailableValue {
     /// Value at memory location of value in CSR register.
     #[serde(rename = "mc")]
     MemoryAtCsr(CsrImm, i32),
+}
+
+impl AvailableValue {
+    /// Whether this value is expressed in terms of the current contents of
+    /// one of the given registers.
+    #[must_use]
+    pub fn refers_to_any(&self, registers: RegisterSet) -> bool {
+        match self {
+            AvailableValue::RegisterWithScalar(reg, _)
+            | AvailableValue::MemoryAtRegister(reg, _) => registers.contains(reg),
+            _ => false,
+        }
+    }
 }
 
 /// Performs the available value analysis on the graph.
@@ -165,6 +178,14 @@ impl GenerationPass for AvailableValuePass {
                 if node.calls_to().is_some() {
                     out_reg_n -= Register::return_addr_set().iter();
                 }
+                // An environment call overwrites its result registers
+                let ecall_results = if node.is_ecall() {
+                    node.known_ecall_signature()
+                        .map_or(Register::program_args_set(), |(_, rets)| rets)
+                } else {
+                    RegisterSet::new()
+                };
+                out_reg_n -= ecall_results.iter();
                 if let Some((reg, reg_value)) = node.gen_reg_value() {
                     out_reg_n.insert(reg, reg_value);
                 }
@@ -218,6 +239,15 @@ impl GenerationPass for AvailableValuePass {
                 rule_push_value_to_csr_memory(&node.node(), &mut out_memory_n, &out_reg_n);
                 rule_known_values_to_stack(&mut out_memory_n, &node.reg_values_in());
                 // TODO stack reset?
+
+                // A value that refers to the current contents of a register
+                // stops being true when this node overwrites that register.
+                let mut overwritten = node.kill_reg() | ecall_results;
+                if node.calls_to().is_some() {
+                    overwritten |= Register::return_addr_set();
+                }
+                out_reg_n.retain(|_, value| !value.refers_to_any(overwritten));
+                out_memory_n.retain(|_, value| !value.refers_to_any(overwritten));
 
                 // If either of the outs changed, replace the old outs with the new outs
                 // and mark that we changed something.
@@ -328,13 +358,20 @@ fn rule_perform_math_ops(
             (
                 Some(AvailableValue::OriginalRegisterWithScalar(new_reg, x)),
                 Some(AvailableValue::Constant(y)),
-            )
-            | (
+            ) => node
+                .inst()
+                .scalar_op()
+                .map(|op| op.operate(x, y))
+                .map(|z| AvailableValue::OriginalRegisterWithScalar(new_reg, z)),
+            // constant + original is an offset from the original value, but
+            // constant - original is not
+            (
                 Some(AvailableValue::Constant(x)),
                 Some(AvailableValue::OriginalRegisterWithScalar(new_reg, y)),
             ) => node
                 .inst()
                 .scalar_op()
+                .filter(|op| matches!(op, MathOp::Add))
                 .map(|op| op.operate(x, y))
                 .map(|z| AvailableValue::OriginalRegisterWithScalar(new_reg, z)),
             (_, _) => None,
